@@ -16,6 +16,7 @@ type famSpec struct {
 	Opts     diffOpts
 	Variants func(v string) bool // which variants this family runs on
 	Cfg      func(r *rand.Rand, tier string, v string) []config
+	AllCfg   bool // run on all 81 configurations even in the quick tier
 }
 
 type diffProp struct {
@@ -85,7 +86,11 @@ func (p *diffProp) RunCase(tier string, seed int64, idx int) caseResult {
 	f, fi := p.family(tier, idx)
 	r := caseRand(seed, p.id+"/"+f.Name, fi)
 	in := f.Gen(r, fi)
-	cfgs := sampleConfigs(r, tier, f.Variants)
+	ct := tier
+	if f.AllCfg {
+		ct = "thorough"
+	}
+	cfgs := sampleConfigs(r, ct, f.Variants)
 	o := f.Opts
 	o.Prop = p.id
 	out := diffCase(in, cfgs, o)
@@ -142,10 +147,7 @@ func (p *diffProp) Replay(f finding) (bool, string) {
 	o := p.optsForFamily(f.Family)
 	o.Prop = p.id
 	// nondeterministic findings: try a few times
-	tries := 1
-	if f.Class == "nondeterministic" {
-		tries = 5
-	}
+	tries := 12 // map-order dependent divergences do not show on every run
 	var sb strings.Builder
 	fmt.Fprintf(&sb, "replay %s on %s (recorded: %s %s %s)\nprogram:\n%s", p.id, f.Config, f.Class, f.Sub, f.Site, f.Input.Src)
 	for t := 0; t < tries; t++ {
@@ -155,12 +157,14 @@ func (p *diffProp) Replay(f finding) (bool, string) {
 			return false, sb.String()
 		}
 		for _, g := range out.Findings {
-			fmt.Fprintf(&sb, "observed: %s %s %s: %s\n", g.Class, g.Sub, g.Site, g.Detail)
-			if g.key() == f.key() {
+			if t == 0 {
+				fmt.Fprintf(&sb, "observed: %s %s %s: %s\n", g.Class, g.Sub, g.Site, g.Detail)
+			}
+			if g.Config.V == f.Config.V && g.Class == f.Class && subClass(g.Sub) == subClass(f.Sub) && g.Site == f.Site {
 				return true, sb.String()
 			}
 		}
-		if len(out.Findings) == 0 {
+		if len(out.Findings) == 0 && t == 0 {
 			fmt.Fprintf(&sb, "observed: no divergence\n")
 		}
 	}
@@ -179,10 +183,11 @@ func init() {
 	register(&diffProp{
 		id: "C01",
 		fams: []famSpec{
+			{Name: "regress", Quick: len(regressCases), Thorough: len(regressCases), Gen: famRegress, Opts: ls, AllCfg: true},
 			{Name: "mixed", Quick: 400, Thorough: 20000, Gen: famMixed, Opts: ls},
 		},
 		rule:   "programs drawn from family 'mixed' (10-230 instructions, all 45 mnemonics, loads/stores over 0.5-8 KB, forward branches with shadows, j/jal/jalr call-return, down-counting loops, ret / fall-off / end label) with boundary-biased initial registers and random memory; each run on every variant (quick: 2 sampled EU/WU/core configurations per variant, thorough: all 81). A case is non-trivial when the reference executes >= 5 instructions and has a taken branch, a memory access or a register written twice; distinct = distinct hash of program text + initial state.",
-		assume: []string{diffAssume, "logical tick budget 8*309*(executed+length+64) decides termination"},
+		assume: []string{diffAssume, "logical tick budget 24*309*(executed+length+64) loop iterations decides termination"},
 		minEv:  []string{"executed", "flushes", "forwards"},
 	})
 	register(&diffProp{
@@ -217,17 +222,20 @@ func init() {
 	register(&diffProp{
 		id: "C07",
 		fams: []famSpec{
+			{Name: "regress", Quick: len(regressCases), Thorough: len(regressCases), Gen: famRegress, Opts: diffOpts{}, AllCfg: true},
+			{Name: "regress-err", Quick: len(regressErrCases), Thorough: len(regressErrCases), Gen: famRegressErr, Opts: diffOpts{ExpectErr: true}, AllCfg: true},
 			{Name: "stress-term", Quick: 500, Thorough: 25000, Gen: famStressTerm, Opts: diffOpts{}},
 			{Name: "mixed", Quick: 100, Thorough: 5000, Gen: famMixed, Opts: diffOpts{}},
 			{Name: "errpath", Quick: 200, Thorough: 10000, Gen: famErrpath, Opts: diffOpts{ExpectErr: true}},
 		},
-		rule:   "families 'stress-term' (store then load of one line, back-to-back taken branches, store bursts, loops with misses, jump chains, ends on ret / end label / mid store burst, ra != 0 at the end), 'mixed', and 'errpath' (div/rem by zero or undefined label reached first / late / in a loop / right after a taken branch / completing during a flush drain). Verdicts: tick budget 8*309*(executed+length+64) exceeded, Go panic, worker killed, cycles above the same bound; for errpath anything but a non-nil error. Non-trivial as in C01 (errpath: reference reaches the defined error).",
-		assume: []string{diffAssume, "termination is decided as bounded progress: a run that needs more than 8*309*(executed+length+64) loop iterations is reported as non-terminating"},
+		rule:   "families 'stress-term' (store then load of one line, back-to-back taken branches, store bursts, loops with misses, jump chains, ends on ret / end label / mid store burst, ra != 0 at the end), 'mixed', and 'errpath' (div/rem by zero or undefined label reached first / late / in a loop / right after a taken branch / completing during a flush drain). Verdicts: tick budget 24*309*(executed+length+64) loop iterations exceeded, Go panic, worker killed, cycles above the same bound; for errpath anything but a non-nil error. Non-trivial as in C01 (errpath: reference reaches the defined error).",
+		assume: []string{diffAssume, "termination is decided as bounded progress: a run that needs more than 24*309*(executed+length+64) loop iterations is reported as non-terminating; the returned cycle count must stay below 8*309*(executed+length+64)"},
 		minEv:  []string{"ticks"},
 	})
 	register(&diffProp{
 		id: "C09",
 		fams: []famSpec{
+			{Name: "regress", Quick: len(regressCases), Thorough: len(regressCases), Gen: famRegress, Opts: ls, Variants: pipelined, AllCfg: true},
 			{Name: "tails", Quick: 600, Thorough: 30000, Gen: famTails, Opts: ls, Variants: pipelined},
 		},
 		rule:   "family 'tails': short body + controlled tail of 1-5 instructions (missing load, hitting load, store miss, store hit, ALU op depending on a load, li, several stores) directly before ret / the end / a jump or taken branch to an end label. Oracle: final state + every reference instruction executed exactly once (lockstep).",
